@@ -942,6 +942,8 @@ class SeqInterp:
         self.shape_texts = set(shape_texts)
         self.ret = None
         self.divisors = []   # right operands of the floor divisions executed, in execution order
+        self.resolver = None  # name -> FunctionDef of a private method `self.<name>()` without arguments
+        self.depth = 0
 
     # polynomials
     @staticmethod
@@ -1060,6 +1062,18 @@ class SeqInterp:
             if fn in ("np.divmod", "divmod", "np.floor_divide") and len(e.args) == 2:
                 self.divisors.append(self.ev(e.args[1]))
                 raise self.Undecided("quotient of the (unknown) flat index")
+            if fn.startswith("self.") and fn.count(".") == 1 and not e.args and not e.keywords and self.resolver and self.depth < 3:
+                # a private helper of the grid without arguments (`self._index_strides()`): evaluated in place
+                node = self.resolver(fn[5:])
+                if node is not None and len(node.args.args) == 1:
+                    sub = SeqInterp(self.ndim, tuple(self.shape_texts))
+                    sub.resolver, sub.depth = self.resolver, self.depth + 1
+                    sub.run([x for x in node.body if not (isinstance(x, ast.Expr) and isinstance(x.value, ast.Constant))])
+                    if sub.ret is None:
+                        raise self.Undecided(f"helper {fn} returns nothing the analysis can follow")
+                    v = sub.ev(sub.ret)
+                    self.divisors += sub.divisors
+                    return v
         raise self.Undecided(f"unsupported expression `{t[:60]}`")
 
     def run(self, body):
